@@ -90,6 +90,8 @@ func CoqOp(o Op) string {
 		return "(OUnlink " + coqFref(o.A) + ")"
 	case "rmdir":
 		return "(ORmdir " + coqFref(o.A) + ")"
+	case "other":
+		return "(ORmdir (RMonth 0%N 0%Z 0%Z))" // a call outside the model's alphabet: never equal to a model operation
 	}
 	return "(OClose (RMonth 0%N 0%Z 0%Z))"
 }
